@@ -160,3 +160,49 @@ Definition rcase_eval (c : rcase) : res :=
    | _ => match rc_bound c with None => true | Some _ => false end
    end,
    0).
+
+(** concurrent logins against a backend that is a function of the body: one
+    round = the sessions (credentials, observed reply and bound row) and the
+    bodies the backend received with its decision for each.  Judged:
+    (a) the bodies received are, as a multiset, the model's encodings of the
+        sessions' own credentials -- each session's exactly once;
+    (b) session i answered OK  <->  the backend accepted the encoding of ITS
+        credentials;
+    (c) an OK IMAP session is bound to the users row of ITS address. *)
+Fixpoint remove_first (x : str) (l : list str) : option (list str) :=
+  match l with
+  | [] => None
+  | y :: l' => if str_eqb x y then Some l'
+               else match remove_first x l' with Some r => Some (y :: r) | None => None end
+  end.
+Fixpoint perm_eqb (a b : list str) : bool :=
+  match a with
+  | [] => is_nil b
+  | x :: a' => match remove_first x b with Some b' => perm_eqb a' b' | None => false end
+  end.
+Fixpoint accepted_of (body : str) (l : list (str * bool)) : bool :=
+  match l with
+  | [] => false
+  | (b, acc) :: l' => if str_eqb b body then acc else accepted_of body l'
+  end.
+
+Record csess := mk_csess { cx_imap : bool; cx_d : str; cx_u : str; cx_p : str; cx_reply : reply; cx_bound : option (str * str) }.
+Record ccase := mk_ccase { cc_sessions : list csess; cc_bodies : list (str * bool) }.
+
+Definition cx_body (x : csess) : str := build_body (address_of (cx_d x) (cx_u x)) (cx_p x).
+Definition csess_ok (bodies : list (str * bool)) (x : csess) : bool :=
+  let acc := accepted_of (cx_body x) bodies in
+  Bool.eqb (reply_eqb (cx_reply x) R_OK) acc
+  && (if cx_imap x then
+        match cx_reply x, cx_bound x with
+        | R_OK, Some row => store_of_b (address_of (cx_d x) (cx_u x)) row
+        | R_OK, None => false
+        | _, None => true
+        | _, Some _ => false
+        end
+      else true).
+Definition ccase_eval (c : ccase) : res :=
+  (true,
+   perm_eqb (map fst (cc_bodies c)) (map cx_body (cc_sessions c))
+   && forallb (csess_ok (cc_bodies c)) (cc_sessions c),
+   0).
